@@ -2,7 +2,7 @@
    The retention arithmetic ("swept markers do not bounce") is in Props/C04_retention.v (the C04_no_bounce theorems),
    re-exported below. *)
 From LS Require Import Base.Bytes Base.Res Header.Model Merge.Model Merge.Version Merge.Order Merge.Proofs Merge.Fold
-  Fleet.Model Fleet.Proofs Shadow.Model Shadow.Proofs Instance.Model Instance.Proofs.
+  Fleet.Model Fleet.Proofs Fleet.Deletion Shadow.Model Shadow.Proofs Instance.Model Instance.Proofs.
 From LS Require Export Props.C04_retention.
 Open Scope N_scope.
 
@@ -61,6 +61,58 @@ Proof.
   specialize (P k Hk). rewrite Hm in P. exact P.
 Qed.
 Print Assumptions C04_clean_marks.
+
+(* FLEET LEVEL (the C01 convergence theorem instantiated for a deletion): if the newest thing ever written for
+   a key anywhere is a deletion at time T — every other write of the key, on any instance, earlier or later, has
+   a timestamp <= T — then in every reachable quiescent state EVERY instance holds exactly that marker: the
+   deletion reached all replicas and no older version, stored somewhere or arriving in a stale snapshot, brought
+   the key back; any number of instances, any order of writes / uploads / merges of any snapshot, LMDB losses *)
+Theorem C04_deletion_propagates_fleet : forall (K : Type) (K_eq_dec : forall a b : K, {a = b} + {a <> b}) n s k d,
+  freach K K_eq_dec (finit K) s -> quiescent K n s ->
+  del d = true -> val d = [] -> written_k K s k d ->
+  (forall v, written_k K s k v -> ts v <= ts d) ->
+  forall i, (i < n)%nat -> st K s i k = Some d.
+Proof. exact deletion_propagates. Qed.
+Print Assumptions C04_deletion_propagates_fleet.
+(* the key is live again at quiescence only through a write with a timestamp strictly above T *)
+Theorem C04_live_again_only_by_newer_write : forall (K : Type) (K_eq_dec : forall a b : K, {a = b} + {a <> b}) n s k d w,
+  freach K K_eq_dec (finit K) s -> quiescent K n s ->
+  del d = true -> val d = [] -> written_k K s k d ->
+  forall i, (i < n)%nat -> st K s i k = Some w -> w <> d ->
+  written_k K s k w /\ ts d < ts w.
+Proof. exact live_after_deletion_is_newer. Qed.
+Print Assumptions C04_live_again_only_by_newer_write.
+(* non-vacuity: instance 0 writes a live value, instance 1 merges it and deletes the key later; after the
+   exchange the state is reachable, quiescent for {0,1}, and meets every hypothesis of the theorem *)
+Example C04_fleet_example :
+  let v := mkVer 5 false [97] in let d := mkVer 9 true [] in
+  exists s, freach bool Bool.bool_dec (finit bool) s /\ quiescent bool 2 s /\ written_k bool s true d /\
+            (forall u, written_k bool s true u -> ts u <= ts d) /\
+            st bool s 0%nat true = Some d /\ st bool s 1%nat true = Some d.
+Proof.
+  cbv zeta. eexists. split.
+  - eapply fr_step. eapply fr_step. eapply fr_step. eapply fr_step. eapply fr_step. eapply fr_step. apply fr_init.
+    + apply (f_write bool Bool.bool_dec _ 0%nat true (mkVer 5 false [97])). exact I.
+    + apply (f_upload bool Bool.bool_dec _ 0%nat).
+    + eapply (f_merge bool Bool.bool_dec _ 1%nat). left. reflexivity.
+    + apply (f_write bool Bool.bool_dec _ 1%nat true (mkVer 9 true [])). vm_compute. right. reflexivity.
+    + apply (f_upload bool Bool.bool_dec _ 1%nat).
+    + eapply (f_merge bool Bool.bool_dec _ 0%nat). right. left. reflexivity.
+  - split; [|split; [|split; [|split; vm_compute; reflexivity]]].
+    + split.
+      * cbn [written]. intros j k u [E|[E|[]]]; inversion E; subst; lia.
+      * intros i j Hi Hj.
+        assert (Hc : (i = 0 \/ i = 1)%nat) by lia. assert (Hd : (j = 0 \/ j = 1)%nat) by lia.
+        destruct Hd as [-> | ->].
+        -- eexists. split; [left; reflexivity|]. split; [reflexivity|]. split.
+           ++ cbn [written]. intros k u [E|[E|[]]]; inversion E; subst; vm_compute; left; reflexivity.
+           ++ intros k. destruct Hc as [-> | ->]; destruct k; vm_compute; auto.
+        -- eexists. split; [right; left; reflexivity|]. split; [reflexivity|]. split.
+           ++ cbn [written]. intros k u [E|[E|[]]]; inversion E; subst; vm_compute; left; reflexivity.
+           ++ intros k. destruct Hc as [-> | ->]; destruct k; vm_compute; auto.
+    + exists 1%nat. left. reflexivity.
+    + intros u [j [E|[E|[]]]]; inversion E; subst; cbn [ts]; lia.
+Qed.
 
 (* regression: with the pre-fix tie rule a live empty value of the SAME timestamp survived next to the deletion *)
 Example C04_prefix_tie : 
